@@ -19,7 +19,7 @@ from lv import builtin_models as M
 from lv.props import common
 
 ID = 'C20'
-BUDGET = {'quick': 920, 'thorough': 36800}        # generated cases (calls)
+BUDGET = {'quick': 2600, 'thorough': 36800}        # generated cases (calls)
 WALL = {'quick': 1200, 'thorough': 7200}     # safety net only (loaded machines)
 RULE = ('round-robin over every built-in named in the statement (46-slot schedule, '
         'UDF-backed aggregates twice); arguments are Hypothesis draws from small '
